@@ -49,7 +49,7 @@ CLAIMS["C01"] = {
     "technique": "static analysis: sibling agreement of encoder/decoder (layout signatures, primitive kinds), schema well-formedness, API-conformance lint over resolved receiver types, coarse type inference of stored values",
 }
 CLAIMS["C02"] = {
-    "decides": "field-level agreement of sibling encoders/decoders in the anchored modules: per-class struct/sstruct layout equality (armed instances), converter primitive pairs and bit layouts, schema keys used by preWrite/postRead, packed point/delta run constants, and for glyf components the flag-to-layout map of compile vs decompile, narrow-layout guards equal to struct code ranges, and identical transform-form tests in compile and toXML.",
+    "decides": "field-level agreement of sibling encoders/decoders in the anchored modules: per-class struct/sstruct layout equality (armed instances), converter primitive pairs and bit layouts, schema keys used by preWrite/postRead, packed point/delta run constants, and for glyf components the flag-to-layout map of compile vs decompile, narrow-layout guards equal to struct code ranges, and identical transform-form tests in compile and toXML; shared header formats (head, hhea, vhea, maxp, post, OS/2, name record, fvar, gvar header, glyph header) against a frozen OpenType layout table.",
     "design_ref": "DESIGN.md §3.1 F1, F2, F4, §4 C02",
     "note": "Trusted: as C01. Not decided: format-choice thresholds (cmap 4 segmentation, Coverage 1 vs 2, hmtx trimming, loca short/long), independent-reader equivalence.",
     "technique": "static analysis: sibling agreement of encoder/decoder, flag-conditioned layout maps from path conditions, interval checks of guards against struct code ranges",
@@ -68,7 +68,7 @@ CLAIMS["C03"] = {
     "technique": "static analysis: writer/reader vocabulary extraction and set comparison, backward-slice must-pass-through of escapers, sibling constant agreement",
 }
 CLAIMS["C04"] = {
-    "decides": "cross-table stores made while compiling are covered by the target's dependencies (writer compiled first) and declared read-dependencies stay declared; container literals equal computed struct sizes/field offsets (12/16/44/20, searchRange item 16, checkSumAdjustment at 8..12, fontRevision 4..8, zeroed-window idiom at every head-checksum site); every round-up is (x+3)&~3 with NUL padding and matching offset advance; directory sorted after the count check; entry checksums from the stored bytes; master checksum formula and its WOFF2 twin agree; hhea/vhea recalc mirror; WOFF raw/compressed discriminator.",
+    "decides": "cross-table stores made while compiling are covered by the target's dependencies (writer compiled first) and declared read-dependencies stay declared; container literals equal computed struct sizes/field offsets (12/16/44/20, searchRange item 16, checkSumAdjustment at 8..12, fontRevision 4..8, zeroed-window idiom at every head-checksum site); every round-up is (x+3)&~3 with NUL padding and matching offset advance; directory sorted after the count check; entry checksums from the stored bytes; master checksum formula and its WOFF2 twin agree; hhea/vhea recalc mirror; WOFF raw/compressed discriminator; sfnt/WOFF/TTC directory formats against a frozen specification layout table.",
     "design_ref": "DESIGN.md §3.3 F10, §4 C04",
     "note": "Trusted: sstruct parser in sa/fmt.py; alias resolution of ttFont['x'] in compile closures. Not decided: numeric correctness of bbox/maxp/extent recomputation, WOFF2 transform fidelity, TTC sharing results.",
     "technique": "static analysis: effect analysis of compile closures vs. declared dependency order, constant folding of layout formats vs. literals, sibling normal-form comparison",
